@@ -2,6 +2,7 @@ package main
 
 import (
 	"fmt"
+	"io/fs"
 	"sort"
 	"strings"
 )
@@ -120,6 +121,33 @@ import (
 // the states in which the base's cwd has moved - also into the sibling that
 // the pattern matches), over OrefaFS one level less.
 //
+// A handle outlives the NAME it was opened by. A wrapper keeps, next to the
+// base's handle, the name given to Open, and everything it does by that name
+// after the open (looking the object up again, translating an error path) is
+// right only as long as the name still leads to the object. Lesson: every
+// method of a handle is called also AFTER the name has been taken away from the
+// object - renamed, removed, replaced by another object - through the same
+// file system; an alphabet that opens a handle and uses it at once never
+// separates "the object of the handle" from "the object of the name".
+// handleCalls (exec.go, runHandle): the handle is opened (read-write, else
+// read-only), then p is renamed to a free name / removed with RemoveAll /
+// renamed and replaced by a new object of the other kind, then every method of
+// avfs.File is called on the handle - File.Chdir followed by Getwd and a
+// relative ReadDir -, and the handle is closed. Applied to every string the
+// single-path calls are applied to (not through Sub views, which are the same
+// code one level down).
+//
+// The MODE argument is data that crosses the wrapper too. fs.FileMode carries
+// more than the nine permission bits: setuid, setgid, sticky and the type
+// bits, and "mode.Perm()" or a mask on the way to the base silently drops
+// what the base would have kept or refused. Lesson: every call that takes a
+// mode is made also with the special bits and with a type bit foreign to the
+// object (as cmd/c05 does for the file systems themselves), by name AND
+// through a handle (Chmod / File.Chmod), and the mode read back through the
+// node graph (all twelve bits) is part of the state both sides must agree on.
+// modeCalls x modeArgs on modeStrings (strings of <= 1 segment, thorough
+// <= 2), permission bits of the plain calls.
+//
 // Levels. The operation list is static and sorted by decreasing MaxLevel, the
 // deepest level at which an operation is applied; NumOps of the system (which
 // bfs asks after replaying a history) is the length of the prefix that applies
@@ -140,6 +168,9 @@ type opT struct {
 	A    string `json:"a"`
 	B    string `json:"b,omitempty"`
 	Two  bool   `json:"two,omitempty"`
+	// Mode: bits or'ed into the mode argument of the call (special and type
+	// bits; the permission bits are those of the plain call).
+	Mode uint32 `json:"mode,omitempty"`
 	// Dir: the operation is made through the view returned by Sub(Dir)
 	// (Call is then subPrefix + the call made on the view, or SubLink).
 	Dir string `json:"dir,omitempty"`
@@ -221,7 +252,21 @@ func (o opT) String() string {
 		return fmt.Sprintf("%s(%q,%q)", o.Call, o.A, o.B)
 	}
 
+	if o.Mode != 0 || o.Call == "OpenChmod" {
+		return fmt.Sprintf("%s(%q,perm|%s)", o.Call, o.A, modeLetters(o.Mode))
+	}
+
 	return fmt.Sprintf("%s(%q)", o.Call, o.A)
+}
+
+// modeLetters: the bits of m in the letters of fs.FileMode.String ("ugt", "d",
+// "L"; "-" for none).
+func modeLetters(m uint32) string {
+	if l := strings.TrimRight(fs.FileMode(m).String(), "-"); l != "" {
+		return l
+	}
+
+	return "-"
 }
 
 // singleCalls are applied to every path string. Compound calls (Open*,
@@ -230,6 +275,74 @@ var singleCalls = []string{
 	"Stat", "Lstat", "ReadFile", "ReadDir", "Open", "Mkdir", "MkdirAll", "WriteFile", "CreateExcl",
 	"Remove", "RemoveAll", "Truncate", "Chmod", "Chtimes", "Chdir", "Readlink", "EvalSymlinks", "Abs",
 	"Glob", "WalkDir", "Sub", "OpenWrite", "OpenChdir",
+}
+
+// handleCalls: open a handle on p, take the name p away from the object through
+// the same file system, then call every method of the handle (exec.go,
+// runHandle).
+var handleCalls = []string{"HandleRenamed", "HandleRemoved", "HandleReplaced"}
+
+// pathCalls are applied to every path string of the wrapper's namespace.
+var pathCalls = append(append([]string{}, singleCalls...), handleCalls...)
+
+// modeCalls are the calls that take a mode argument (OpenChmod: File.Chmod on a
+// handle opened read-only); see run for their permission bits.
+var modeCalls = []string{"Chmod", "OpenChmod", "Mkdir", "MkdirAll", "WriteFile", "CreateExcl"}
+
+const specialBits = fs.ModeSetuid | fs.ModeSetgid | fs.ModeSticky
+
+// modeArgs lists the bits or'ed into the mode argument of call. Quick: the three
+// special bits at once (a dropped bit is missing afterwards whichever it is) and
+// a type foreign to the object the call makes or changes. Thorough: every
+// special bit alone as well, both foreign types, every bit outside permissions
+// and special bits at once, a type together with the special bits. File.Chmod
+// has no plain form in the alphabet: also without any bit.
+func modeArgs(call, tier string) []fs.FileMode {
+	foreign := fs.ModeDir
+	if call == "Mkdir" || call == "MkdirAll" {
+		foreign = fs.ModeSymlink
+	}
+
+	l := []fs.FileMode{specialBits, foreign}
+
+	if tier == "thorough" {
+		l = []fs.FileMode{
+			specialBits, fs.ModeSetuid, fs.ModeSetgid, fs.ModeSticky, fs.ModeDir, fs.ModeSymlink,
+			fs.ModeType | fs.ModeAppend | fs.ModeExclusive | fs.ModeTemporary, fs.ModeSymlink | specialBits,
+		}
+	}
+
+	if call == "OpenChmod" {
+		l = append([]fs.FileMode{0}, l...)
+	}
+
+	return l
+}
+
+// modeSegs: the mode arguments are applied to the strings of at most that many
+// segments.
+func modeSegs(tier string) int {
+	if tier == "thorough" {
+		return 2
+	}
+
+	return 1
+}
+
+// modeArgsText describes the mode dimension for the evidence file.
+func modeArgsText(tier string) string {
+	var parts []string
+
+	for _, c := range modeCalls {
+		var ms []string
+		for _, m := range modeArgs(c, tier) {
+			ms = append(ms, modeLetters(uint32(m)))
+		}
+
+		parts = append(parts, c+": "+strings.Join(ms, " "))
+	}
+
+	return strings.Join(parts, "; ")
 }
 
 var readOnlyCalls = map[string]bool{
@@ -518,12 +631,21 @@ func buildOps(tier string) []opT {
 	for _, p := range pathStrings(maxSeg) {
 		lvl := levelOf(segs, p)
 
-		for _, c := range singleCalls {
+		for _, c := range pathCalls {
 			if c == "Glob" && isFixedGlob(p.S) {
 				continue
 			}
 
 			ops = append(ops, opT{Call: c, A: p.S, MaxLevel: lvl, Long: p.Segs > 2})
+		}
+
+		// the mode argument with special and type bits
+		if p.Segs <= modeSegs(tier) {
+			for _, c := range modeCalls {
+				for _, m := range modeArgs(c, tier) {
+					ops = append(ops, opT{Call: c, A: p.S, Mode: uint32(m), MaxLevel: lvl})
+				}
+			}
 		}
 	}
 
@@ -532,7 +654,7 @@ func buildOps(tier string) []opT {
 	for _, p := range siblingStrings {
 		lvl := levelOf(segs, pathStr{p, segCount(p)})
 
-		for _, c := range singleCalls {
+		for _, c := range pathCalls {
 			ops = append(ops, opT{Call: c, A: p, MaxLevel: lvl})
 		}
 	}
@@ -541,7 +663,7 @@ func buildOps(tier string) []opT {
 	for _, p := range linkStrings {
 		lvl := levelOf(segs, pathStr{p, segCount(p)})
 
-		for _, c := range singleCalls {
+		for _, c := range pathCalls {
 			ops = append(ops, opT{Call: c, A: p, MaxLevel: lvl, Links: true})
 		}
 	}
@@ -555,14 +677,14 @@ func buildOps(tier string) []opT {
 	}
 
 	for _, p := range outLinkStrings {
-		for _, c := range singleCalls {
+		for _, c := range pathCalls {
 			ops = append(ops, opT{Call: c, A: p, MaxLevel: 1, Links: true})
 		}
 	}
 
 	// the world of the variant user
 	for _, p := range userStrings {
-		for _, c := range singleCalls {
+		for _, c := range pathCalls {
 			ops = append(ops, opT{Call: c, A: p, MaxLevel: 1, User: true})
 		}
 	}
@@ -577,7 +699,7 @@ func buildOps(tier string) []opT {
 	for _, p := range nameStrings {
 		lvl := levelOf(segs, pathStr{p, segCount(p)})
 
-		for _, c := range singleCalls {
+		for _, c := range pathCalls {
 			ops = append(ops, opT{Call: c, A: p, MaxLevel: lvl, Names: true})
 		}
 	}
